@@ -2,13 +2,17 @@ import AvroModel
 import AvroProofs.Lemmas.RoundTrip
 import AvroProofs.Lemmas.DecodeConforms
 import AvroProofs.Lemmas.Prim
+import AvroProofs.Lemmas.Frame
 /-!
 # C06 — a successfully decoded value conforms to the schema
 
-`PrimFacts` are statements about the *model's* versions of third-party primitives (num-bigint
-signed bytes, uuid text forms); each of its fields is a closed statement about Lean functions.
-They are hypotheses here (and listed as such in the evidence) until proved in
-`AvroProofs/Lemmas/Prim.lean`.
+The facts about the *model's* versions of third-party primitives (num-bigint signed bytes, uuid text
+forms) that `decode_conforms_aux` needs are proved in `AvroProofs/Lemmas/Prim.lean` (`primFacts`).
+
+The second half of the property - a truncated datum is reported as an error rather than completed
+with invented values - is `truncated_datum_is_error`: it follows from the decoder being *framed*
+(`decode_framed`: a successful decode consumed a prefix of its input and does not depend on what
+follows it), proved by induction through every arm and loop of the decoder.
 -/
 namespace Avro.C06
 open Avro
@@ -29,6 +33,49 @@ theorem decode_reencode (cfg : Cfg) (env : Names)
     ∃ bs' n, ∀ fuel', n ≤ fuel' →
       encode env fuel' s v = .ok bs' ∧ ∀ r, decode cfg env fuel' s (bs' ++ r) = .ok (v, r) :=
   conforms_rt hl63 (decode_conforms cfg env h1 h2 hl henv fuel s hs bs v rest h)
+
+/-- **the decoder is framed**: whenever it succeeds it consumed a prefix `c` of its input, returns
+the rest untouched, and returns the same value for `c` followed by anything else -/
+theorem decode_framed (cfg : Cfg) (env : Names) (fuel : Nat) (s : Schema) (bs : Bytes) (v : Value) (rest : Bytes)
+    (h : decode cfg env fuel s bs = .ok (v, rest)) :
+    ∃ c, bs = c ++ rest ∧ ∀ q, decode cfg env fuel s (c ++ q) = .ok (v, q) :=
+  framed_decode cfg env fuel s bs v rest h
+
+/-- **a truncated datum is an error**: if a byte string is exactly one datum (decoding it leaves
+nothing), then decoding any strict prefix of it fails - for every schema, every byte string (also a
+non-canonical one: several blocks, negative counts), every cut point.  No value is invented. -/
+theorem truncated_datum_is_error (cfg : Cfg) (env : Names) (fuel : Nat) (s : Schema) (bs : Bytes) (v : Value)
+    (h : decode cfg env fuel s bs = .ok (v, [])) (p q : Bytes) (hp : bs = p ++ q) (hq : q ≠ []) :
+    ∃ e, decode cfg env fuel s p = .error e :=
+  truncated_is_error cfg env fuel s bs v h p q hp hq
+
+/-- …in particular every strict prefix of what the encoder writes for a conforming value -/
+theorem truncated_encoding_is_error (cfg : Cfg) (env : Names) (hl : cfg.lim < 2^63) (s : Schema) (v : Value)
+    (hc : Conforms cfg env s v) :
+    ∃ bs n, ∀ fuel, n ≤ fuel → encode env fuel s v = .ok bs ∧
+      ∀ p q, bs = p ++ q → q ≠ [] → ∃ e, decode cfg env fuel s p = .error e := by
+  obtain ⟨bs, n, H⟩ := conforms_rt hl hc
+  refine ⟨bs, n, fun fuel hf => ?_⟩
+  obtain ⟨he, hd⟩ := H fuel hf
+  refine ⟨he, fun p q hp hq => ?_⟩
+  have := hd []
+  rw [List.append_nil] at this
+  exact truncated_is_error cfg env fuel s bs v this p q hp hq
+
+/-- the encodings of a schema's values are prefix-free: a datum that is a prefix of a datum is that datum -/
+theorem prefix_free (cfg : Cfg) (env : Names) (fuel : Nat) (s : Schema) (a b : Bytes) (va vb : Value)
+    (ha : decode cfg env fuel s a = .ok (va, [])) (hb : decode cfg env fuel s b = .ok (vb, []))
+    (q : Bytes) (hab : b = a ++ q) : q = [] ∧ va = vb := by
+  by_cases hq : q = []
+  · subst hq
+    rw [List.append_nil] at hab
+    subst hab
+    rw [ha] at hb
+    simp at hb
+    exact ⟨rfl, hb⟩
+  · obtain ⟨e, he⟩ := truncated_is_error cfg env fuel s b vb hb a q hab hq
+    rw [ha] at he
+    simp at he
 
 /-! non-vacuity: the decoder does succeed on non-canonical input (a negative block count with a
 byte size, a second block), and the hypotheses are satisfiable -/
